@@ -56,7 +56,7 @@ ASSUMPTIONS = ['the MODEL (and K) cover Latin-1 input strings (code points 0..25
                'str.format on str arguments raises only AttributeError, IndexError, KeyError, MemoryError, OverflowError, TypeError or ValueError (the tuple parse_equation catches): '
                'with it the PUnmodelled hole (C13_unmodelled_only_inside_format) cannot hide a foreign exception; exercised by the format-spec corpus and mutations, not proved',
                'not modelled raise sites, unreachable by reading: the two `assert`s (Symbol.combine names equal; FUNCTION symbols equal) and the enum lookup Type[type_key[1:]] in process_term_match',
-               'time: the model has no cost notion; the harness measures CPU-time growth exponents on twelve scaling families (budget: exponent <= 1.6 once the larger input takes >= 0.1 s CPU)',
+               'time: the model has no cost notion; the harness measures CPU time on fifteen scaling families: a first look (n, 2n: exponent > 1.6 with >= 0.1 s) only SUSPECTS a family; a suspect is re-measured in three fresh processes at n, 2n, 4n and flagged only if the exponent from the per-size minima is >= 1.85, every single process gives >= 1.5 and every t(4n) >= 0.5 s — on a faster machine a kept scaling finding may simply not be hit; only check_syntax=False is timed',
                'K is stricter than the property where the property only says "one of the three own errors" (K compares the exact class and every Symbol field, K_lex the group names); '
                'a K-only disagreement is reported as broken correspondence (no-failing-input-found), not as a property violation']
 EXHAUSTIVE = {'quick': True, 'thorough': True}
@@ -233,6 +233,12 @@ def _build_cause(emitted_syms):
     """minimal discriminator of WHY embedding compiling code into the class body fails, so that the known findings do not
     mask a different regression of the same exception shape"""
     codes = [x.code or '' for x in emitted_syms]
+    decl = set()
+    for c in codes:
+        for m in re.finditer(r'^\s*(?:global|nonlocal)\s+([^#\n;]+)', c, re.M):
+            decl |= {n.strip() for n in m.group(1).split(',')}
+    if decl and any(re.search(r'\b%s\b' % re.escape(n), c2) for n in decl for c2 in codes if not re.search(r'^\s*(?:global|nonlocal)\b[^\n]*\b%s\b' % re.escape(n), c2, re.M)):
+        return 'global-after-use-in-another-statement'      # every code compiles in a method body of its own; together they share ONE body
     if any(re.search(r'\bimport\s*\*', c) for c in codes):
         return 'import-star'
     if any(c.rstrip(' \t').endswith('\\') for c in codes):
@@ -287,6 +293,14 @@ def _reset_process_state():
         warnings._filters_mutated()
 
 
+def _np_err():
+    try:
+        import numpy as np
+        return tuple(sorted(np.geterr().items()))
+    except Exception:       # noqa: BLE001
+        return None
+
+
 def _snapshot():
     """process-global state the property speaks about ("no effect outside the returned objects"): files, environment,
     working directory, builtins, warnings configuration, interpreter settings, names of the parser module's globals"""
@@ -296,7 +310,7 @@ def _snapshot():
     return (frozenset(os.listdir('.')), frozenset(vars(builtins)), tuple(sorted(os.environ.items())),
             tuple(repr(f) for f in warnings.filters), repr(getattr(fsic.parser, 'replacement_function_names', None)),
             getattr(getattr(fsic.parser, 'term_re', None), 'pattern', None), getattr(getattr(fsic.parser, 'equation_re', None), 'pattern', None),
-            os.getcwd(), _globals_fp(), _open_fds(), sys.getrecursionlimit(), tuple(sys.path))
+            os.getcwd(), _globals_fp(), _open_fds(), sys.getrecursionlimit(), tuple(sys.path), _np_err())
 
 
 def _classify_count(s, texts, emitted, unclosed):
@@ -447,6 +461,19 @@ def observe(s, light=False):
             o['cs'] = type(e).__name__ + '-from-compile'      # not the parser's own IndentationError
         if o['cs'] not in OWN:
             o['cs_site'] = _site(e)
+    if not light:
+        # no state between calls on the DEFAULT path either: the same script parsed again (after the caller emptied the first result)
+        first = ('O:' + pc.enc_symbols(syms)) if syms is not None else 'E:' + o['cs']
+        if syms is not None:
+            keep = list(syms)
+            del syms[:]
+            syms = keep
+        try:
+            second = 'O:' + pc.enc_symbols(fsic.parse_model(s))
+        except BaseException as e:      # noqa: BLE001
+            second = 'E:' + type(e).__name__
+        if second != first.replace('-from-compile', ''):
+            o['history'] = 'checked path: ' + second
     if syms is not None:
         if not light:
             o['cs_line'] = 'O:' + pc.enc_symbols(syms)
@@ -540,7 +567,7 @@ SCALE_FAMILIES = {
     'open-index-sum': lambda n: 'Y = ' + '+'.join(['X[1'] * n),
     'keyword-open-index': lambda n: 'Y = ' + 'if[ ' * n,
 }
-SCALE_SIZES = {'bracketed-lines': (25, 50), 'long-identifier': (3000, 6000), 'dotted-name': (1500, 3000), 'many-statements': (300, 600),
+SCALE_SIZES = {'bracketed-lines': (20, 40), 'long-identifier': (3000, 6000), 'dotted-name': (1500, 3000), 'many-statements': (300, 600),
                'long-sum': (1500, 3000), 'long-bracket-statement': (400, 800), 'long-fence': (1000, 2000), 'many-blank-lines': (20000, 40000),
                'long-comment': (50000, 100000), 'many-parameters': (800, 1600), 'long-number': (5000, 10000), 'spaces-before-eq': (3000, 6000),
                'open-index': (1000, 2000), 'open-index-sum': (1400, 2800), 'keyword-open-index': (2500, 5000)}
@@ -553,7 +580,7 @@ SCALE_MAX_EXP = 1.6     # first look: linear is 1, quadratic 2 — only SUSPECTS
 SCALE_CONFIRM_EXP = 1.85
 SCALE_CONFIRM_EACH = 1.5
 SCALE_CONFIRM_T = 0.5
-SCALE_CONFIRM_BASE = {'bracketed-lines': 15, 'dotted-name': 2000, 'open-index': 1000, 'open-index-sum': 1200, 'keyword-open-index': 2500}
+SCALE_CONFIRM_BASE = {'bracketed-lines': 12, 'dotted-name': 1500, 'open-index': 800, 'open-index-sum': 1000, 'keyword-open-index': 2000}
 
 _SCALE_SCRIPT = r"""
 import json, math, sys, time, warnings
@@ -738,6 +765,10 @@ CORPUS = [
     'Y = (1 is 1) + canary_fn()', '`x = canary_fn() is 1`', 'Y = canary_fn() is 1', 'Y = "\\d" + canary_fn()', '`x = f() if 1 is 1 else 0`',    # a SyntaxWarning together with a call
     'Y = X\u2028Z = W', 'Y = X\u2029Z = W', 'Y = X[\uff11]', 'Y = X[\u0661]', '\u3000Y = X', 'Y = \u03b1 + X', '\u03b1 = 1', 'Y = X \u2212 1', 'Y = {\u03b1}',     # outside Latin-1: oracle only
     '```python\nx = 1\n```', '```py\n```',      # the info string becomes code
+    '```\nglobal errors\n```', '```\nglobal iteration\n```', '```\nglobal kwargs, t\n```', '```\nglobal catch_first_error\n```', '`global self`', '```\nglobal x\n```', '```\nglobal x\nx = 1\n```',     # fad09eb: the real parameters
+    '```\nx = 1\n```\n```\nglobal x\n```', '`x = 1`\n`global x`', 'Y = X\n`global Y`',      # all codes share one method body: per-statement check passes, build fails (kept finding)
+    '```\nreturn\n```', '`return 1`', 'Y = X + 1\nZ = (yield)', 'Y = (yield X)', '`yield`', '`await f()`', '```\nnonlocal x\n```',      # legal in a method body; changes what _evaluate is
+    'Y = "\ud800"', 'Y = X + "\udfff"', '`x = "\ud800"`',      # lone surrogates: UnicodeEncodeError (a ValueError) from compile()
     '```\n\\\n```', '```\nx = 1\n\\\n```', '```\nx = 1 \\\n```', '`x = 1 \\`', '```\nx = (1 +\\\n2)\n```',      # a trailing backslash: the embedded check joins it with its own `pass`
     'status = 1', 'Y = lags', 'Y = {check}', '`x = 1; from os import *`',                          # NEW: accepted but cannot be built / instantiated
     'Y = ' + '+'.join(['X'] * 3000), 'Y = ' + '-' * 6000 + 'X',                                   # RecursionError / MemoryError from compile(): ParserError since 74fa5fb (must still terminate within the watchdog)
@@ -978,7 +1009,7 @@ def oracle(case, obs):
                 seen.add(sig)
                 fails.append({'sig': 'C13|' + sig, 'what': '%s — input %s' % (what, json.dumps(s)[:160])})
     if obs.get('side_effect'):
-        fails.append({'sig': 'C13|side-effect', 'what': 'process-global state changed while parsing / building: one of files in cwd, builtins, os.environ, cwd, warnings.filters, names of the globals of fsic.parser, open file descriptors, sys.path, recursion limit'})
+        fails.append({'sig': 'C13|side-effect', 'what': 'process-global state changed while parsing / building: one of files in cwd, builtins, os.environ, cwd, warnings.filters, numpy error state, names of the globals of fsic.parser, open file descriptors, sys.path, recursion limit'})
     return fails
 
 
